@@ -34,7 +34,11 @@ pub fn compare(fz: &Freezer, frozen: &[BlockView]) -> Result<(), Diff> {
     if n != frozen.len() as u64 + 1 {
         return Err(Diff {
             symptom: "number_mismatch",
-            detail: format!("number()={} but {} blocks are frozen in the model", n, frozen.len()),
+            detail: format!(
+                "number()={} but {} blocks are frozen in the model",
+                n,
+                frozen.len()
+            ),
         });
     }
     for (i, b) in frozen.iter().enumerate() {
@@ -45,11 +49,25 @@ pub fn compare(fz: &Freezer, frozen: &[BlockView]) -> Result<(), Diff> {
             Ok(Some(got)) => {
                 return Err(Diff {
                     symptom: "item_corrupt",
-                    detail: format!("retrieve({i}) returned {} bytes, block.data() has {}", got.len(), data.as_slice().len()),
+                    detail: format!(
+                        "retrieve({i}) returned {} bytes, block.data() has {}",
+                        got.len(),
+                        data.as_slice().len()
+                    ),
                 });
             }
-            Ok(None) => return Err(Diff { symptom: "item_missing", detail: format!("retrieve({i}) = None") }),
-            Err(e) => return Err(Diff { symptom: "retrieve_error", detail: format!("retrieve({i}) = Err({e})") }),
+            Ok(None) => {
+                return Err(Diff {
+                    symptom: "item_missing",
+                    detail: format!("retrieve({i}) = None"),
+                });
+            }
+            Err(e) => {
+                return Err(Diff {
+                    symptom: "retrieve_error",
+                    detail: format!("retrieve({i}) = Err({e})"),
+                });
+            }
         }
     }
     let len = frozen.len() as u64;
@@ -57,10 +75,16 @@ pub fn compare(fz: &Freezer, frozen: &[BlockView]) -> Result<(), Diff> {
         match fz.retrieve(beyond) {
             Ok(None) => {}
             Ok(Some(v)) => {
-                return Err(Diff { symptom: "beyond_range_not_none", detail: format!("retrieve({beyond}) returned {} bytes", v.len()) });
+                return Err(Diff {
+                    symptom: "beyond_range_not_none",
+                    detail: format!("retrieve({beyond}) returned {} bytes", v.len()),
+                });
             }
             Err(e) => {
-                return Err(Diff { symptom: "beyond_range_not_none", detail: format!("retrieve({beyond}) = Err({e})") });
+                return Err(Diff {
+                    symptom: "beyond_range_not_none",
+                    detail: format!("retrieve({beyond}) = Err({e})"),
+                });
             }
         }
     }
@@ -91,8 +115,14 @@ pub fn compare_light(fz: &Freezer, frozen: &[BlockView], pick: u64) -> Result<()
     }
     match fz.retrieve(len + 1) {
         Ok(None) => Ok(()),
-        Ok(Some(v)) => Err(Diff { symptom: "beyond_range_not_none", detail: format!("retrieve({}) returned {} bytes", len + 1, v.len()) }),
-        Err(e) => Err(Diff { symptom: "beyond_range_not_none", detail: format!("retrieve({}) = Err({e})", len + 1) }),
+        Ok(Some(v)) => Err(Diff {
+            symptom: "beyond_range_not_none",
+            detail: format!("retrieve({}) returned {} bytes", len + 1, v.len()),
+        }),
+        Err(e) => Err(Diff {
+            symptom: "beyond_range_not_none",
+            detail: format!("retrieve({}) = Err({e})", len + 1),
+        }),
     }
 }
 
@@ -102,15 +132,28 @@ pub fn read_one(fz: &Freezer, frozen: &[BlockView], i: u64) -> Result<(), Diff> 
         Ok(Some(got)) if got.as_slice() == want.as_slice() => Ok(()),
         Ok(Some(got)) => Err(Diff {
             symptom: "item_corrupt",
-            detail: format!("retrieve({i}) returned {} bytes, block.data() has {}", got.len(), want.as_slice().len()),
+            detail: format!(
+                "retrieve({i}) returned {} bytes, block.data() has {}",
+                got.len(),
+                want.as_slice().len()
+            ),
         }),
-        Ok(None) => Err(Diff { symptom: "item_missing", detail: format!("retrieve({i}) = None") }),
-        Err(e) => Err(Diff { symptom: "retrieve_error", detail: format!("retrieve({i}) = Err({e})") }),
+        Ok(None) => Err(Diff {
+            symptom: "item_missing",
+            detail: format!("retrieve({i}) = None"),
+        }),
+        Err(e) => Err(Diff {
+            symptom: "retrieve_error",
+            detail: format!("retrieve({i}) = Err({e})"),
+        }),
     }
 }
 
 fn tip_hash(frozen: &[BlockView], genesis: &packed::Byte32) -> packed::Byte32 {
-    frozen.last().map(|b| b.hash()).unwrap_or_else(|| genesis.clone())
+    frozen
+        .last()
+        .map(|b| b.hash())
+        .unwrap_or_else(|| genesis.clone())
 }
 
 /// Freeze `blocks` (linked onto the frozen tip); `missing_at` makes the block source return
@@ -127,7 +170,11 @@ fn freeze_blocks(
     let ret = fz.freeze(threshold, |n| {
         on_fetch();
         let i = n.checked_sub(start)? as usize;
-        if Some(i) == missing_at { None } else { blocks.get(i).cloned() }
+        if Some(i) == missing_at {
+            None
+        } else {
+            blocks.get(i).cloned()
+        }
     });
     let take = missing_at.unwrap_or(blocks.len()).min(blocks.len());
     let mut want: BTreeMap<packed::Byte32, (u64, u32)> = BTreeMap::new();
@@ -138,11 +185,18 @@ fn freeze_blocks(
         Ok(got) => {
             frozen.extend_from_slice(&blocks[..take]);
             if got != want {
-                return Err(format!("freeze({threshold}) returned {} entries, expected {}", got.len(), want.len()));
+                return Err(format!(
+                    "freeze({threshold}) returned {} entries, expected {}",
+                    got.len(),
+                    want.len()
+                ));
             }
             Ok(())
         }
-        Err(e) => Err(format!("freeze({threshold}) of {} linked blocks = Err({e})", blocks.len())),
+        Err(e) => Err(format!(
+            "freeze({threshold}) of {} linked blocks = Err({e})",
+            blocks.len()
+        )),
     }
 }
 
@@ -161,12 +215,20 @@ fn unlinked_refused(fz: &Freezer, frozen: &[BlockView], rng: &mut Rng) -> Result
         }
     }
     if fz.number() != next {
-        return Err(format!("number() changed to {} by a refused freeze", fz.number()));
+        return Err(format!(
+            "number() changed to {} by a refused freeze",
+            fz.number()
+        ));
     }
     Ok(())
 }
 
-fn new_blocks(rng: &mut Rng, frozen: &[BlockView], genesis: &packed::Byte32, k: usize) -> Vec<BlockView> {
+fn new_blocks(
+    rng: &mut Rng,
+    frozen: &[BlockView],
+    genesis: &packed::Byte32,
+    k: usize,
+) -> Vec<BlockView> {
     let mut parent = tip_hash(frozen, genesis);
     let mut v = vec![];
     for i in 0..k {
@@ -202,11 +264,20 @@ impl<'a> FH<'a> {
         })
     }
     fn weight(&self) -> (u64, u64) {
-        (self.frozen.len() as u64, self.frozen.iter().map(|b| b.data().as_slice().len() as u64).sum())
+        (
+            self.frozen.len() as u64,
+            self.frozen
+                .iter()
+                .map(|b| b.data().as_slice().len() as u64)
+                .sum(),
+        )
     }
     fn fail(&mut self, op: &str, symptom: &str, detail: String) {
         let (sig, detail) = if self.random_reads {
-            (format!("{LVL}.history.diverged@{RR}"), format!("{op}: {symptom}: {detail}"))
+            (
+                format!("{LVL}.history.diverged@{RR}"),
+                format!("{op}: {symptom}: {detail}"),
+            )
         } else {
             (format!("{LVL}.{op}.{symptom}"), detail)
         };
@@ -221,7 +292,10 @@ impl<'a> FH<'a> {
             return self.fail(op, d.symptom, d.detail);
         }
         // finish with a random-access read, like a real reader between two freeze passes
-        self.poke = self.poke.wrapping_mul(6364136223846793005).wrapping_add(1442695040888963407);
+        self.poke = self
+            .poke
+            .wrapping_mul(6364136223846793005)
+            .wrapping_add(1442695040888963407);
         if self.random_reads && !self.frozen.is_empty() && (self.poke >> 33) % 4 != 0 {
             let i = (self.poke >> 35) % self.frozen.len() as u64;
             self.st.count("freezer.op.retrieve_single_random");
@@ -232,7 +306,14 @@ impl<'a> FH<'a> {
         }
     }
 
-    fn crash_witness(&self, plan: &Plan, dc: DataCut, ic: u64, class: &str, n: Option<u64>) -> Value {
+    fn crash_witness(
+        &self,
+        plan: &Plan,
+        dc: DataCut,
+        ic: u64,
+        class: &str,
+        n: Option<u64>,
+    ) -> Value {
         let (k_idx, k_data) = plan.written(dc, ic);
         json!({
             "history": self.ctx(),
@@ -307,9 +388,12 @@ impl<'a> FH<'a> {
         let snaps: RefCell<Vec<DirLens>> = RefCell::new(vec![]);
         let main = self.dirs.main.clone();
         self.ops.push(format!("freeze(+{u}) [crash phase]"));
-        self.st.count_n("freezer.op.freeze_block_unsynced", u as u64);
+        self.st
+            .count_n("freezer.op.freeze_block_unsynced", u as u64);
         let r = freeze_blocks(fz, &mut self.frozen, &blocks, None, &|| {
-            snaps.borrow_mut().push(crash::read_lens(&main).unwrap_or_default());
+            snaps
+                .borrow_mut()
+                .push(crash::read_lens(&main).unwrap_or_default());
         });
         if let Err(d) = r {
             return self.fail("freeze", "diverged", d);
@@ -326,7 +410,9 @@ impl<'a> FH<'a> {
         };
         match Plan::build(base, fin, &snaps, m0) {
             Ok(plan) => self.enumerate(&plan, rng),
-            Err(e) => self.st.harness_error(format!("{LVL} job {}: crash plan: {e}", self.job)),
+            Err(e) => self
+                .st
+                .harness_error(format!("{LVL} job {}: crash plan: {e}", self.job)),
         }
     }
 
@@ -346,7 +432,9 @@ impl<'a> FH<'a> {
             }
             self.frozen.push(b);
         }
-        self.ops.push(format!("layout: {pre} blocks appended with max_file_size {max}, sync_all"));
+        self.ops.push(format!(
+            "layout: {pre} blocks appended with max_file_size {max}, sync_all"
+        ));
         if let Err(e) = ff.sync_all() {
             return self.fail("layout", "sync_error", format!("{e}"));
         }
@@ -366,7 +454,9 @@ impl<'a> FH<'a> {
             self.frozen.push(b);
             snaps.push(crash::read_lens(&self.dirs.main).unwrap_or_default());
         }
-        self.ops.push(format!("layout: {u} blocks appended unsynced [crash phase]"));
+        self.ops.push(format!(
+            "layout: {u} blocks appended unsynced [crash phase]"
+        ));
         drop(ff);
         let fin = match crash::read_image(&self.dirs.main) {
             Ok(b) => b,
@@ -376,10 +466,15 @@ impl<'a> FH<'a> {
         self.st.count_n("freezer.layout.data_files", files);
         match Plan::build(base, fin, &snaps, m0) {
             Ok(plan) => {
-                self.st.count_n("freezer.rollovers_in_unsynced_appends", plan.rollovers() as u64);
+                self.st.count_n(
+                    "freezer.rollovers_in_unsynced_appends",
+                    plan.rollovers() as u64,
+                );
                 self.enumerate(&plan, rng)
             }
-            Err(e) => self.st.harness_error(format!("{LVL} job {}: layout crash plan: {e}", self.job)),
+            Err(e) => self
+                .st
+                .harness_error(format!("{LVL} job {}: layout crash plan: {e}", self.job)),
         }
     }
 }
@@ -422,7 +517,10 @@ fn eval_state(h: &mut FH, plan: &Plan, dc: DataCut, ic: u64, class: &'static str
         let w = h.crash_witness(plan, dc, ic, class, Some(n));
         return h.st.violation(
             &format!("{LVL}.open.unreadable_prefix@{class}"),
-            format!("number()={number} after open, only {} blocks were ever frozen", h.frozen.len()),
+            format!(
+                "number()={number} after open, only {} blocks were ever frozen",
+                h.frozen.len()
+            ),
             wt,
             || w,
         );
@@ -473,7 +571,11 @@ fn eval_state(h: &mut FH, plan: &Plan, dc: DataCut, ic: u64, class: &'static str
                 }
                 None => label = RR,
             },
-            Err(e) => return h.st.harness_error(format!("re-materialize for attribution: {e}")),
+            Err(e) => {
+                return h
+                    .st
+                    .harness_error(format!("re-materialize for attribution: {e}"));
+            }
         }
     }
     let mut w = h.crash_witness(plan, dc, ic, class, Some(n));
@@ -504,15 +606,27 @@ fn follow_up(
         ($what:expr, $full:expr) => {
             h.st.eval();
             let pick = prng.next_u64();
-            let r = if $full { compare(&fz, &frozen) } else { compare_light(&fz, &frozen, pick) };
+            let r = if $full {
+                compare(&fz, &frozen)
+            } else {
+                compare_light(&fz, &frozen, pick)
+            };
             if let Err(d) = r {
-                return Some(("diverged", format!("after {}: {}: {}", $what, d.symptom, d.detail), steps));
+                return Some((
+                    "diverged",
+                    format!("after {}: {}: {}", $what, d.symptom, d.detail),
+                    steps,
+                ));
             }
             if pokes && !frozen.is_empty() && prng.chance(3, 4) {
                 let i = prng.range(1, frozen.len() as u64);
                 steps.push(format!("retrieve({i})"));
                 if let Err(d) = read_one(&fz, &frozen, i) {
-                    return Some(("diverged", format!("after {}: {}: {}", $what, d.symptom, d.detail), steps));
+                    return Some((
+                        "diverged",
+                        format!("after {}: {}: {}", $what, d.symptom, d.detail),
+                        steps,
+                    ));
                 }
             }
         };
@@ -523,7 +637,11 @@ fn follow_up(
                 h.st.eval();
                 h.st.count("freezer.tip_checks");
                 if let Err(d) = unlinked_refused(&fz, &frozen, &mut rng) {
-                    return Some(("accepted_unlinked_block", format!("after {}: {}", $what, d), steps));
+                    return Some((
+                        "accepted_unlinked_block",
+                        format!("after {}: {}", $what, d),
+                        steps,
+                    ));
                 }
             }
         };
@@ -568,7 +686,10 @@ fn follow_up(
 }
 
 pub fn run_random(cfg: &FCfg, idx: u64, dirs: &Dirs, st: &mut Stats) {
-    let mut rng = Rng::new(cfg.seed.wrapping_mul(0xD6E8_FEB8_6659_FD93) ^ vbase::fnv1a(format!("freezer:{idx}").as_bytes()));
+    let mut rng = Rng::new(
+        cfg.seed.wrapping_mul(0xD6E8_FEB8_6659_FD93)
+            ^ vbase::fnv1a(format!("freezer:{idx}").as_bytes()),
+    );
     let _ = crash::clear_dir(&dirs.main);
     let genesis = random_hash(&mut rng);
     let random_reads = rng.chance(1, 3);
@@ -605,7 +726,9 @@ pub fn run_random(cfg: &FCfg, idx: u64, dirs: &Dirs, st: &mut Stats) {
     };
     h.check(&fz, "open");
     let mut phases_left = cfg.crash_phases;
-    let mut crash_at: Vec<usize> = (0..phases_left).map(|_| rng.range(1, cfg.n_ops as u64 - 1) as usize).collect();
+    let mut crash_at: Vec<usize> = (0..phases_left)
+        .map(|_| rng.range(1, cfg.n_ops as u64 - 1) as usize)
+        .collect();
     crash_at.sort();
     for step in 0..cfg.n_ops {
         if h.dead {
@@ -620,7 +743,11 @@ pub fn run_random(cfg: &FCfg, idx: u64, dirs: &Dirs, st: &mut Stats) {
             0..=44 => {
                 let k = rng.range(0, 3) as usize;
                 let blocks = new_blocks(&mut rng, &h.frozen, &h.genesis, k);
-                let missing = if k > 0 && rng.chance(1, 5) { Some(rng.usize_below(k)) } else { None };
+                let missing = if k > 0 && rng.chance(1, 5) {
+                    Some(rng.usize_below(k))
+                } else {
+                    None
+                };
                 h.ops.push(format!("freeze(+{k}, missing_at={missing:?})"));
                 h.st.count("freezer.op.freeze");
                 h.st.count_n("freezer.op.freeze_block", missing.unwrap_or(k) as u64);
@@ -644,7 +771,13 @@ pub fn run_random(cfg: &FCfg, idx: u64, dirs: &Dirs, st: &mut Stats) {
             }
             55..=69 => {
                 let len = h.frozen.len() as u64;
-                let t = if rng.chance(1, 5) { len + rng.below(3) } else if len > 0 { rng.range(0, len) } else { 0 };
+                let t = if rng.chance(1, 5) {
+                    len + rng.below(3)
+                } else if len > 0 {
+                    rng.range(0, len)
+                } else {
+                    0
+                };
                 h.ops.push(format!("truncate({t})"));
                 h.st.count("freezer.op.truncate");
                 if let Err(e) = fz.truncate(t) {
